@@ -29,6 +29,7 @@ func runC02(c *Check, tier string) {
 	// "... or the target is tainted": a taint is removed only by a successful forced execution
 	ruleR13b(c, analyseGate(c, "R02j"), "R02j")
 	// "executes only if ...": the gate's conjuncts; "irretrievable outputs": the restore path
+	ruleR02m(c)
 	useFamily(c, "R02k", famGate, 8)
 	useFamily(c, "R02l", famRestore, 20)
 }
@@ -910,4 +911,58 @@ func expandWrapperSinks(c *Check, sinks []HasherSink) []HasherSink {
 		expand(s, 0)
 	}
 	return out
+}
+
+// R02m: a build with the cache disabled leaves the cache alone. Its completion computes an output-less record
+// (outputs are hashed locally, not stored); written under the target's change hash it replaces the complete
+// record of an earlier build, and the next cache-enabled build finds a result it cannot restore and executes
+// the target again although nothing changed.
+func ruleR02m(c *Check) {
+	c.Rule("R02m", "in the completion function the target-result write is reachable only on paths on which the executor's enable-cache flag was tested true (or through the branch that stored the outputs)", 1)
+	ex := findExec(c, "R02m")
+	if ex == nil {
+		return
+	}
+	tw := c.P.Func("caching", "TargetResultCache", "Write")
+	if tw == nil {
+		c.Unknown("R02m", "anchor/caching.TargetResultCache.Write", "anchor-unresolved", "-")
+		return
+	}
+	enable := fk("execution.Executor", "enableCache")
+	isFlag := func(v ssa.Value) bool {
+		for _, o := range engine.Origins(v) {
+			if ld, ok := o.(*ssa.UnOp); ok {
+				if fa, ok := ld.X.(*ssa.FieldAddr); ok && engine.FieldKeyOf(fa.X.Type(), fa.Field) == enable {
+					return true
+				}
+			}
+		}
+		if ld, ok := v.(*ssa.UnOp); ok {
+			if fa, ok := ld.X.(*ssa.FieldAddr); ok && engine.FieldKeyOf(fa.X.Type(), fa.Field) == enable {
+				return true
+			}
+		}
+		return false
+	}
+	disabled := engine.CutEdgesWhere(func(a engine.Atom) bool { return a.Op == "false" && isFlag(a.V) })
+	writes, _ := liftedSites(c, ex.Complete, func(s ssa.CallInstruction) bool {
+		for _, cal := range c.G.CalleesOf(s) {
+			if cal == tw {
+				return true
+			}
+		}
+		return false
+	}, 0)
+	if len(writes) == 0 {
+		c.Unknown("R02m", "no-result-write-when-disabled/"+c.P.FuncName(ex.Complete), "no target-result write in the completion function", "-")
+		return
+	}
+	for _, w := range writes {
+		// is there a path to the write that takes a 'flag is false' edge? equivalently: cutting the
+		// 'flag is true' edges must not leave the write reachable when the flag is tested at all
+		enabled := engine.CutEdgesWhere(func(a engine.Atom) bool { return a.Op == "true" && isFlag(a.V) })
+		_ = disabled
+		reach, _ := engine.PathExists(ex.Complete, nil, engine.IsInstr(w), engine.PathQuery{CutEdge: enabled, Shallow: true})
+		c.Require(!reach, "R02m", "no-result-write-when-disabled/"+c.P.FuncName(ex.Complete), "the result is written only past the branch on which caching is enabled", "the target result is also written when caching is disabled: the record of such a build lists no outputs and replaces the complete one stored earlier under the same change hash, so the next ordinary build executes the target again although nothing changed (and, with a shared remote cache, so does everybody else)", c.P.InstrPos(w))
+	}
 }
